@@ -245,6 +245,52 @@ func TestC07(t *testing.T) {
 					viol(fmt.Sprintf("DescribeCluster via %s server reports %s shards, lcm(%d,%d)=%d", dir, obs, local, remote, L), op)
 				}
 			}
+			// overlapping DescribeCluster calls: one with the bypass header is still in flight upstream when an ordinary one
+			// arrives — each caller gets the answer for ITS OWN request (the ordinary one the LCM, the bypass one the real count)
+			{
+				gate, arrived := make(chan struct{}), make(chan struct{}, 8)
+				be.Respond = func(m string, req proto.Message, md metadata.MD) (proto.Message, error) {
+					arrived <- struct{}{}
+					<-gate
+					return &adminservice.DescribeClusterResponse{HistoryShardCount: count, ClusterName: "c"}, nil
+				}
+				type res struct {
+					n   int32
+					err error
+				}
+				call := func(bypass bool, out chan res) {
+					var md metadata.MD
+					if bypass {
+						md = metadata.Pairs(common.RequestTranslationHeaderName, "false")
+					}
+					resp, err := invoke(conn, adminDescribeMethod, nil, md)
+					r := res{err: err}
+					if err == nil {
+						r.n = resp.(*adminservice.DescribeClusterResponse).HistoryShardCount
+					}
+					out <- r
+				}
+				byp, ord := make(chan res, 1), make(chan res, 1)
+				go call(true, byp)
+				select {
+				case <-arrived:
+				case <-time.After(5 * time.Second):
+				}
+				go call(false, ord)
+				select {
+				case <-arrived: // the ordinary call went upstream on its own
+				case <-time.After(300 * time.Millisecond): // ... or it is waiting on something else
+				}
+				close(gate)
+				rb, ro := <-byp, <-ord
+				op := fmt.Sprintf("# e2edesc-overlap %d %d %s", local, remote, dir)
+				e.Emit(op, "#")
+				e.Evals++
+				if rb.err != nil || ro.err != nil || int64(ro.n) != trueLCM(int64(local), int64(remote)) || rb.n != count {
+					viol(fmt.Sprintf("overlapping DescribeCluster calls via %s server (local=%d remote=%d): the ordinary caller was told %d shards (want lcm=%d), the caller with the bypass header %d (want %d) (%v %v)",
+						dir, local, remote, ro.n, L, rb.n, count, ro.err, rb.err), op)
+				}
+			}
 			// streams
 			sids := []int32{1, L, 0, L + 1, -3}
 			for i := 0; i < 4; i++ {
